@@ -3,7 +3,9 @@
 // Mathematics only: nothing in this file is derived from /repo's code. Needs base.rs (pow10, abs_int).
 // vstd has no gcd library; everything below is proved from the definitions.
 
-/// d | a
+/// d | a   (opaque: the existential and its nonlinear product are only unfolded inside the basic
+/// lemmas of the "divisibility" section, which keeps every other proof linear for Z3)
+#[verifier::opaque]
 pub open spec fn divides(d: int, a: int) -> bool {
     exists|k: int| a == #[trigger] (d * k)
 }
@@ -57,6 +59,7 @@ pub open spec fn is_reduced_ratio(c: int, f: nat, n: int, d: int) -> bool {
 pub proof fn lemma_divides_intro(d: int, k: int)
     ensures divides(d, d * k)
 {
+    reveal(divides);
 }
 
 pub open spec fn cofactor(d: int, a: int) -> int { choose|k: int| a == #[trigger] (d * k) }
@@ -65,11 +68,13 @@ pub proof fn lemma_divides_elim(d: int, a: int)
     requires divides(d, a)
     ensures a == d * cofactor(d, a)
 {
+    reveal(divides);
 }
 
 pub proof fn lemma_divides_refl(a: int)
     ensures divides(a, a), divides(1, a), divides(a, 0)
 {
+    reveal(divides);
     assert(a == a * 1);
     assert(a == 1 * a);
     assert(0 == a * 0);
@@ -79,38 +84,51 @@ pub proof fn lemma_divides_neg(d: int, a: int)
     requires divides(d, a)
     ensures divides(d, -a), divides(-d, a), divides(d, abs_int(a))
 {
+    lemma_divides_elim(d, a);
     let k = cofactor(d, a);
     assert(-a == d * (-k)) by (nonlinear_arith) requires a == d * k;
     assert(a == (-d) * (-k)) by (nonlinear_arith) requires a == d * k;
+    lemma_divides_intro(d, -k);
+    lemma_divides_intro(-d, -k);
 }
 
 pub proof fn lemma_divides_add_sub(d: int, a: int, b: int)
     requires divides(d, a), divides(d, b)
     ensures divides(d, a + b), divides(d, b - a)
 {
+    lemma_divides_elim(d, a);
+    lemma_divides_elim(d, b);
     let k = cofactor(d, a);
     let l = cofactor(d, b);
     assert(a + b == d * (k + l)) by (nonlinear_arith) requires a == d * k, b == d * l;
     assert(b - a == d * (l - k)) by (nonlinear_arith) requires a == d * k, b == d * l;
+    lemma_divides_intro(d, k + l);
+    lemma_divides_intro(d, l - k);
 }
 
 pub proof fn lemma_divides_mul(d: int, a: int, c: int)
     requires divides(d, a)
     ensures divides(d, a * c), divides(d, c * a), divides(d * c, a * c)
 {
+    lemma_divides_elim(d, a);
     let k = cofactor(d, a);
     assert(a * c == d * (k * c)) by (nonlinear_arith) requires a == d * k;
     assert(c * a == d * (k * c)) by (nonlinear_arith) requires a == d * k;
     assert(a * c == (d * c) * k) by (nonlinear_arith) requires a == d * k;
+    lemma_divides_intro(d, k * c);
+    lemma_divides_intro(d * c, k);
 }
 
 pub proof fn lemma_divides_trans(a: int, b: int, c: int)
     requires divides(a, b), divides(b, c)
     ensures divides(a, c)
 {
+    lemma_divides_elim(a, b);
+    lemma_divides_elim(b, c);
     let k = cofactor(a, b);
     let l = cofactor(b, c);
     assert(c == a * (k * l)) by (nonlinear_arith) requires b == a * k, c == b * l;
+    lemma_divides_intro(a, k * l);
 }
 
 /// cancellation: c != 0 && d*c | a*c ==> d | a
@@ -118,14 +136,17 @@ pub proof fn lemma_divides_cancel(d: int, a: int, c: int)
     requires c != 0, divides(d * c, a * c)
     ensures divides(d, a)
 {
+    lemma_divides_elim(d * c, a * c);
     let k = cofactor(d * c, a * c);
     assert(a == d * k) by (nonlinear_arith) requires a * c == (d * c) * k, c != 0;
+    lemma_divides_intro(d, k);
 }
 
 pub proof fn lemma_divides_le(d: int, a: int)
     requires divides(d, a), a > 0
     ensures d <= a, d != 0
 {
+    lemma_divides_elim(d, a);
     let k = cofactor(d, a);
     assert(d <= a && d != 0) by (nonlinear_arith) requires a == d * k, a > 0;
 }
@@ -143,6 +164,7 @@ pub proof fn lemma_divides_div(d: int, a: int)
     requires d > 0, divides(d, a)
     ensures a % d == 0, a == d * (a / d), a == (a / d) * d
 {
+    lemma_divides_elim(d, a);
     let k = cofactor(d, a);
     assert(a == k * d + 0) by (nonlinear_arith) requires a == d * k;
     lemma_div_mod_unique(a, d, k, 0);
@@ -154,6 +176,7 @@ pub proof fn lemma_mod0_divides(d: int, a: int)
     ensures divides(d, a), a == d * (a / d)
 {
     vstd::arithmetic::div_mod::lemma_fundamental_div_mod(a, d);
+    lemma_divides_intro(d, a / d);
 }
 
 // ---------------------------------------------------------------- parity
@@ -183,6 +206,7 @@ pub proof fn lemma_odd_divisor(d: int, a: int)
     requires is_odd(a), divides(d, a)
     ensures is_odd(d)
 {
+    lemma_divides_elim(d, a);
     let k = cofactor(d, a);
     if !is_odd(d) { lemma_even_times(d, k); }
 }
@@ -192,6 +216,7 @@ pub proof fn lemma_odd_divides_half(d: int, v: int)
     requires is_odd(d), divides(d, 2 * v)
     ensures divides(d, v)
 {
+    lemma_divides_elim(d, 2 * v);
     let k = cofactor(d, 2 * v);
     if is_odd(k) {
         lemma_odd_times_odd(d, k);
@@ -199,6 +224,7 @@ pub proof fn lemma_odd_divides_half(d: int, v: int)
     }
     let j = k / 2;
     assert(v == d * j) by (nonlinear_arith) requires 2 * v == d * k, k == 2 * j;
+    lemma_divides_intro(d, j);
 }
 
 // ---------------------------------------------------------------- powers
@@ -312,8 +338,6 @@ pub proof fn lemma_is_gcd_unique(a: int, b: int, g1: int, g2: int)
 {
     lemma_is_gcd_common(a, b, g1, g2);
     lemma_is_gcd_common(a, b, g2, g1);
-    assert(g1 > 0);
-    assert(g2 > 0);
     lemma_divides_antisym(g1, g2);
 }
 
